@@ -11,6 +11,10 @@
    and every place where the library reads through such a pointer is a [Use] of the caller's slot: decoding reads dctx->ddict;
    _emplaceDDict / _getDDict / _expand read the dictID of the entries they probe (ZSTD_getDictID_fromDDict(entry)).
 
+   Round 3 also puts the rest of the DCtx in the same family (the local DDict of ZSTD_DCtx_loadDictionary and its variants, released by
+   ZSTD_clearDict, and the stream buffer of ZSTD_decompressStream), so that
+   the all-history theorems are about ONE DCtx doing all of it, not about independent sub-objects.
+
    [fixed] selects ZSTD_DCtx_refDDict as found on 2026-10-02 (false: dctx->ddict / dictUses recorded BEFORE the set is created or
    expanded; finding dctx-refddict-failed-call-takes-effect) or as repaired by 8de9dc9 (true: recorded after). *)
 From Coq Require Import NArith List Bool.
@@ -22,6 +26,10 @@ Definition R_dctx : lbl := 500.
 Definition R_set : lbl := 501.
 Definition R_table : lbl := 502.
 Definition R_new : lbl := 503.
+Definition R_local : lbl := 504.                  (* dctx->ddictLocal (owned: ZSTD_DCtx_loadDictionary and variants) *)
+Definition R_localBuf : lbl := 505.               (* its content copy *)
+Definition R_inBuff : lbl := 506.                 (* dctx->inBuff (+ outBuff): streaming *)
+Definition RF_sizes : flag := 599.                (* inBuffSize / outBuffSize describe R_inBuff *)
 Definition RD (k : N) : lbl := 700 + 2 * k.       (* the caller's handle of DDict k *)
 Definition RDb (k : N) : lbl := 701 + 2 * k.      (* its content buffer (by copy) *)
 Definition RF_cur (k : N) : flag := 600 + 3 * k.
@@ -31,6 +39,7 @@ Definition RF_bel (k : N) : flag := 602 + 3 * k.
 Definition n_bcreate : N := 90.   Definition n_bfree : N := 91.     Definition n_bref : N := 92.
 Definition n_bsetcreate : N := 93. Definition n_bsetexpand : N := 94. Definition n_bdecomp : N := 95.
 Definition n_breset : N := 96.    Definition n_bddcreate : N := 97. Definition n_bddfree : N := 98.
+Definition n_bload : N := 99.     Definition n_bstream : N := 100.
 
 Section Borrow.
 Variable fixed : bool.
@@ -40,7 +49,11 @@ Variables (sz_dctx sz_set sz_table sz_dd : N).
 Definition ks : list N := map N.of_nat (seq 0 nd).
 Definition for_ks (f : N -> prog) : prog := fold_right (fun k p => f k ;; p) Skip ks.
 
-Definition clear_cur : prog := for_ks (fun k => SetFlag (RF_cur k) false).   (* ZSTD_clearDict: dctx->ddict = NULL *)
+Definition clear_cur : prog := for_ks (fun k => SetFlag (RF_cur k) false).   (* dctx->ddict = NULL *)
+(* ZSTD_clearDict: ZSTD_freeDDict(dctx->ddictLocal); ddictLocal = NULL; ddict = NULL; dictUses = ZSTD_dont_use *)
+Definition bclear_dict : prog :=
+  IfNull R_local Skip (Use R_local ;; Free R_localBuf None ;; Free R_local None ;; SetNull R_localBuf ;; SetNull R_local) ;;
+  clear_cur.
 Definition clear_in : prog := for_ks (fun k => SetFlag (RF_in k) false).     (* the table is gone *)
 Definition clear_bel : prog := for_ks (fun k => SetFlag (RF_bel k) false).
 (* probing / re-hashing reads the dictID of the entries: every entry may be read *)
@@ -65,7 +78,7 @@ Definition bset_free : prog :=
 Definition bref_gen (k : N) (expand : prog -> prog) : prog :=
   Call n_bref (
     Use R_dctx ;;
-    clear_cur ;;
+    bclear_dict ;;
     (if fixed then Skip else SetFlag (RF_cur k) true) ;;
     IfNull R_set (bset_create ;; IfErr (Return false) Skip) (expand (bset_expand ;; IfErr (Return false) Skip)) ;;
     Use R_table ;; Use (RD k) ;; touch_in ;;         (* _emplaceDDict: dictID of the new DDict, of the entries on its probe path *)
@@ -77,23 +90,60 @@ Definition bref (k : N) : prog := bref_gen k (fun p => Choice 50 p Skip).
 Definition bref_obs (k n : N) : prog := bref_gen k (fun p => if 1 <=? n then p else Skip).
 
 (* ZSTD_DCtx_refDDict(dctx, NULL) *)
-Definition bunref : prog := Call n_bref (Use R_dctx ;; clear_cur ;; Return true).
+Definition bunref : prog := Call n_bref (Use R_dctx ;; bclear_dict ;; Return true).
 
-(* a frame decoded with the context: reads dctx->ddict; with a current DDict and a set, ZSTD_DCtx_selectFrameDDict probes the set *)
-Definition bdecomp : prog :=
-  Call n_bdecomp (
+(* ZSTD_DCtx_loadDictionary_advanced: the previous dictionary is dropped first, the local DDict becomes the current one; the
+   multi-DDict set is not touched *)
+Definition bload (byRef : bool) (sz : N) : prog :=
+  Call n_bload (
     Use R_dctx ;;
-    for_ks (fun k => IfFlag (RF_cur k) (Use (RD k) ;; IfNull R_set Skip (Use R_table ;; touch_in)) Skip) ;;
+    bclear_dict ;;
+    Alloc R_local false sz_dd ;; IfNull R_local (Return false) Skip ;;
+    (if byRef then Skip
+     else (Alloc R_localBuf false sz ;; IfNull R_localBuf (Free R_local None ;; SetNull R_local ;; Return false) Skip)) ;;
+    Return true).
+
+(* what decoding a frame does with the dictionaries: with a set and no dictionary loaded into the context (the selection replaces
+   a referenced DDict, never a local one: 9260ac3 / a891479), ZSTD_DCtx_selectFrameDDict probes the set (reads the dictID of the
+   entries) and may make an entry the current dictionary; then the current dictionary is read.  (The code selects only when a
+   referenced DDict is current; the model lets it select whenever the set exists and nothing is loaded: more behaviours.) *)
+Definition bselect : prog :=
+  IfNull R_set Skip
+    (IfNull R_local
+       (Use R_table ;; touch_in ;;
+        for_ks (fun k => IfFlag (RF_in k) (Choice 52 (clear_cur ;; SetFlag (RF_cur k) true) Skip) Skip))
+       Skip).
+Definition buse_dict : prog :=
+  IfNull R_local Skip (Use R_local) ;; for_ks (fun k => IfFlag (RF_cur k) (Use (RD k)) Skip).
+(* a frame decoded in one call *)
+Definition bdecomp : prog :=
+  Call n_bdecomp (Use R_dctx ;; bselect ;; buse_dict ;; Return true).
+(* a frame streamed: the same, then the stream buffer ([n] decides "too small or oversized for too long": 0 = the environment,
+   1 = no, anything else = yes; released BEFORE the new one is requested, sizes zeroed first) *)
+Definition bbuf_resize (sz : N) : prog :=
+  Free R_inBuff None ;; SetFlag RF_sizes false ;; SetNull R_inBuff ;;
+  Alloc R_inBuff false sz ;; IfNull R_inBuff (Return false) Skip ;;
+  SetFlag RF_sizes true.
+Definition bstream (n sz : N) : prog :=
+  Call n_bstream (
+    Use R_dctx ;; bselect ;; buse_dict ;;
+    IfFlag RF_sizes (match n with 0 => Choice 53 (bbuf_resize sz) Skip | 1 => Skip | _ => bbuf_resize sz end) (bbuf_resize sz) ;;
+    Use R_inBuff ;;
     Return true).
 
 (* ZSTD_DCtx_reset(dctx, ZSTD_reset_parameters or session_and_parameters) *)
 Definition breset_params : prog :=
-  Call n_breset (Use R_dctx ;; clear_cur ;; bset_free ;; Return true).
+  Call n_breset (Use R_dctx ;; bclear_dict ;; bset_free ;; Return true).
 
 Definition bdctx_create : prog :=
   Call n_bcreate (Alloc R_dctx false sz_dctx ;; IfNull R_dctx (Return false) (Return true)).
 Definition bdctx_free : prog :=
-  Call n_bfree (IfNull R_dctx (Return true) Skip ;; Use R_dctx ;; clear_cur ;; bset_free ;; Free R_dctx None ;; Return true).
+  Call n_bfree (
+    IfNull R_dctx (Return true) Skip ;; Use R_dctx ;;
+    bclear_dict ;;
+    Free R_inBuff None ;; SetNull R_inBuff ;; SetFlag RF_sizes false ;;
+    bset_free ;;
+    Free R_dctx None ;; Return true).
 
 Definition bdd_create (k : N) (byRef : bool) : prog :=
   Call n_bddcreate (
@@ -106,7 +156,8 @@ Definition bdd_free (k : N) : prog :=
 
 Inductive bop : Type :=
 | BCreate | BFree | BRef (k : N) | BRefObs (k n : N) | BUnref | BDecomp | BResetParams
-| BDDCreate (k : N) (byRef : bool) | BDDFree (k : N).
+| BDDCreate (k : N) (byRef : bool) | BDDFree (k : N)
+| BLoad (byRef : bool) (sz : N) | BStream (n sz : N).
 
 Definition bop_prog (o : bop) : prog :=
   match o with
@@ -119,6 +170,8 @@ Definition bop_prog (o : bop) : prog :=
   | BResetParams => breset_params
   | BDDCreate k r => bdd_create k r
   | BDDFree k => bdd_free k
+  | BLoad r sz => bload r sz
+  | BStream n sz => bstream n sz
   end.
 Definition bapi (o : bop) : prog := Forget ;; Call 0 (bop_prog o).
 
@@ -130,14 +183,14 @@ Definition bclient (o : bop) : prog :=
   | BCreate => IfNull R_dctx (bapi o) Skip
   | BFree => bapi o ;; SetNull R_dctx ;; clear_bel
   | BRef k | BRefObs k _ => IfNull R_dctx Skip (IfNull (RD k) Skip (bapi o ;; IfErr Skip (SetFlag (RF_bel k) true)))
-  | BUnref | BDecomp => IfNull R_dctx Skip (bapi o)
+  | BUnref | BDecomp | BLoad _ _ | BStream _ _ => IfNull R_dctx Skip (bapi o)
   | BResetParams => IfNull R_dctx Skip (bapi o ;; clear_bel)
   | BDDCreate k _ => IfNull (RD k) (bapi o) Skip
   | BDDFree k => IfFlag (RF_bel k) Skip (bapi o ;; SetNull (RD k))
   end.
 Definition bteardown : prog := bclient BFree ;; for_ks (fun k => bclient (BDDFree k)).
 Definition breps : list bop :=
-  [BCreate; BFree; BUnref; BDecomp; BResetParams]
+  [BCreate; BFree; BUnref; BDecomp; BResetParams; BLoad false 0; BLoad true 0; BStream 0 0; BStream 1 0; BStream 2 0]
   ++ flat_map (fun k => [BRef k; BDDCreate k false; BDDCreate k true; BDDFree k]) ks.
 
 (* the scenario interpreter of the tie: the API calls a run of harness/c13_fault.c made, as (code, parameters); the caller's
@@ -151,6 +204,8 @@ Definition bop_of_code (code : N) (ps : list N) : bop :=
   | 5 => BResetParams
   | 6 => BDDCreate (nth 0 ps 0) (negb (nth 1 ps 0 =? 0))
   | 7 => BDDFree (nth 0 ps 0)
+  | 8 => BLoad (negb (nth 0 ps 0 =? 0)) (nth 1 ps 0)
+  | 9 => BStream (nth 0 ps 0) (nth 1 ps 0)
   | _ => BUnref
   end.
 Fixpoint bops_prog (ops : list bop) : prog :=
